@@ -149,9 +149,10 @@ class ModelElement(ABC):
 
     @name.setter
     def name(self, value: str):
-        self._name = value
         if self.__dict__.get('topo', None) is not None:
             self.set_property('name', value)
+        # only a name the model took is remembered by the handle
+        self._name = value
 
     @property
     def capacities(self):
